@@ -234,17 +234,38 @@ def failure_data_source(which: int, h_parent: str, h_child: str, verify_parent: 
     return data.case is parent and data.headers == {"Authorization": h_parent, "X-P": "1"} and data.verify == verify_parent
 
 
+def printed_block(command: str, m: int, with_response: bool) -> bool:
+    """
+    pre: len(command) <= NP and 0 <= m <= 2
+    post: _
+    """
+    from schemathesis.core.output import OutputConfig
+    from schemathesis.core.failures import format_failures
+
+    # what the user copies from the report is the text after "Reproduce with:" - it must be the command itself, also when a quoted
+    # payload spans several lines (any re-indentation of continuation lines changes the body that curl sends)
+    out = format_failures(case_id="c1", response=_response(True) if with_response else None, failures=[Failure(operation="GET /a", title="t", message=pick(["", "m", "a" + chr(10) + "b"], m))],
+                          curl=command, config=OutputConfig())
+    marker = "Reproduce with: " + chr(10) + chr(10) + "    "
+    return out.count(marker) >= 1 and out.endswith(marker + command)
+
+
+NP = tier(3, 4)
+
 OBLIGATIONS = [
-    Ob(fn="curl_argv", clause="executed by a POSIX shell with a real curl, the command sends the same method, URL, body and headers (except those curl/requests add on their own)",
+    Ob(fn="printed_block", props=["C09"], clause="the 'Reproduce with' block of a failure report shows the command verbatim, also when it spans several lines",
+       timeout={"quick": 200, "thorough": 600}, functions=["schemathesis.core.failures.format_failures"], symbolic="the command text (any characters incl. newlines), which of 3 failure messages, response present or not",
+       bounds={"quick": "command <= 3 characters", "thorough": "command <= 4"}, stubs=["http.client.responses lookup on the concrete status 200"]),
+    Ob(fn="curl_argv", props=["C09"], clause="executed by a POSIX shell with a real curl, the command sends the same method, URL, body and headers (except those curl/requests add on their own)",
        timeout={"quick": 200, "thorough": 900}, functions=["schemathesis.core.curl.generate", "schemathesis.core.curl._filter_headers", "schemathesis.core.curl.get_excluded_headers"],
        symbolic="method (8), a generated header value, Content-Type (3), body text or bytes, verify flag",
        bounds={"quick": "header value and body <= 2 characters (printable ASCII header value, any text body)", "thorough": "<= 3 characters"},
        stubs=["shlex.quote replaced by a placeholder (contract: sh splits quote(s) back into [s])", "curl option semantics modelled from curl(1) and confirmed against curl 7.88.1 on a loopback socket in the design phase"],
        outside=["non-ASCII header values, binary payloads", "URL text (passed through quote() unchanged)"]),
-    Ob(fn="curl_argv_bytes", clause="same, for a text payload held as bytes", timeout={"quick": 120, "thorough": 300},
+    Ob(fn="curl_argv_bytes", props=["C09"], clause="same, for a text payload held as bytes", timeout={"quick": 120, "thorough": 300},
        functions=["schemathesis.core.curl.generate"], symbolic="method, ASCII body of <= 2 characters encoded to bytes, verify flag", bounds="body <= 2 ASCII characters",
        stubs=["shlex.quote replaced by a placeholder"]),
-    Ob(fn="request_data_sanitize_switch", clause="with sanitization disabled the command carries exactly the values that were sent; with it enabled only redacted values differ",
+    Ob(fn="request_data_sanitize_switch", props=["C09"], clause="with sanitization disabled the command carries exactly the values that were sent; with it enabled only redacted values differ",
        timeout={"quick": 200, "thorough": 600}, functions=["schemathesis.transport.prepare.prepare_request", "schemathesis.transport.requests.RequestsTransport.serialize_case",
                                                             "schemathesis.transport.prepare.prepare_headers", "schemathesis.core.output.sanitization.sanitize_value"],
        symbolic="query parameter name (4, two sensitive), its value, an Authorization header value, the sanitize flag",
